@@ -16,8 +16,9 @@ import (
 func Run(ctx *common.Ctx) int {
 	info, err := fast.BuildInstrumented(ctx)
 	if err != nil {
-		ctx.Printf("C08: cannot build the instrumented runner: %v\n", err)
-		return 2
+		ctx.Note("the parallel workflows cannot be instrumented (%v); falling back to free-running executions", err)
+		cov := fast.FreeRunning(ctx, "c08", []fast.SrcSpec{{Kind: "full", Index2: -1}, {Kind: "uniform", Index2: -1, Size: "half"}}, firstLine(err.Error()))
+		return ctx.Finish("model_checking", cov, []string{"degraded mode: schedules sampled by the Go runtime"})
 	}
 	quick := ctx.Quick()
 	var tasks []e1.Task
@@ -142,4 +143,13 @@ func Race(ctx *common.Ctx, gomaxprocs int) int {
 	}
 	_, _ = p.Fast(&seam.Source{Data: data})
 	return 0
+}
+
+func firstLine(s string) string {
+	for i, c := range s {
+		if c == '\n' {
+			return s[:i]
+		}
+	}
+	return s
 }
